@@ -26,12 +26,12 @@ import (
 var reNewsDate = regexp.MustCompile(`\([A-Z][a-z]{2}\d\d \d\d:\d\d\)`)
 
 type c02Outcome struct {
-	Replies   []string // per op, normalised
-	Inbox     []string // sorted multiset of non-reply transactions
-	Disk      map[string]string
-	LoggedIn  bool
-	Closed    bool
-	FrameErr  string
+	Replies  []string // per op, normalised
+	Inbox    []string // sorted multiset of non-reply transactions
+	Disk     map[string]string
+	LoggedIn bool
+	Closed   bool
+	FrameErr string
 }
 
 func normFields(t rp.Tran) string {
@@ -131,7 +131,7 @@ func genC02(rng *rand.Rand, c *Case) {
 		case 6, 7:
 			name := fmt.Sprintf("up%d.bin", i)
 			fs := size()
-			if rng.Intn(4) == 0 && !byteMode {
+			if rng.Intn(4) == 0 && !byteMode && !(c.Cfg["seg_c2s"] == int(simnet.SegMSS) && c.Cfg["mss"] < 8) {
 				fs = 100000 + rng.Intn(200000)
 			}
 			c.Ops = append(c.Ops, Op{K: "upload", S: []string{name}, N: []int{fs, rng.Intn(1 << 30), rng.Intn(2), rng.Intn(300)}})
@@ -144,6 +144,25 @@ func genC02(rng *rand.Rand, c *Case) {
 			c.Ops = append(c.Ops, Op{K: "fileinfo", S: []string{files[rng.Intn(len(files))]}})
 		}
 	}
+	// the step cap grows with the number of segments the variant execution has to deliver, so that a cap hit
+	// means "no progress", not "long session"
+	segSize := 64
+	switch c.Cfg["seg_c2s"] {
+	case int(simnet.SegByte):
+		segSize = 1
+	case int(simnet.SegMSS):
+		segSize = c.Cfg["mss"]
+	}
+	total := 0
+	for _, op := range c.Ops {
+		if op.K == "upload" {
+			total += op.N[0]
+		}
+		for _, t := range op.S {
+			total += len(t)
+		}
+	}
+	c.Cfg["maxsteps"] = 400000 + 8*total/segSize
 	// scripted cut points around fixed-size header boundaries
 	if c.Cfg["seg_c2s"] == int(simnet.SegScript) {
 		cand := []int{1, 2, 3, 4, 5, 7, 8, 11, 12, 13, 15, 16, 17, 19, 20, 21, 22, 23, 24, 25, 39, 40, 41}
